@@ -70,6 +70,9 @@ def approx_base(dom, name, a, b, extra):
 
 def try_builtin(it, callee, args):
     c = callee
+    # rustc prints std paths with or without the crate prefix depending on edition / imports
+    if c.startswith(("f64::<impl f64>::", "slice::<impl [", "num::<impl usize>::", "bool::<impl bool>::", "array::<impl [")):
+        c = "core::" + c
     dom = it.dom
 
     def used(tag):
@@ -104,12 +107,63 @@ def try_builtin(it, callee, args):
             for _ in range(args[1]):
                 r = dom.mul(r, a[0])
             return r
+        if name == "classify":
+            x = a[0]
+            cats = [("Nan", 0), ("Infinite", 1), ("Zero", 2), ("Subnormal", 3), ("Normal", 4)]
+            if x.conc is not None:
+                import math as _m
+                v_ = x.conc
+                k = 0 if _m.isnan(v_) else 1 if _m.isinf(v_) else 2 if v_ == 0.0 else 3 if abs(v_) < 2.2250738585072014e-308 else 4
+                return EnumVal("FpCategory", cats[k][0], k)
+            if not z3.is_fp(x.t):
+                raise Unsupported("classify of a real-embedded value")
+            t = x.t
+            if it.decide(z3.fpIsNaN(t)):
+                return EnumVal("FpCategory", "Nan", 0)
+            if it.decide(z3.fpIsInf(t)):
+                return EnumVal("FpCategory", "Infinite", 1)
+            if it.decide(z3.fpIsZero(t)):
+                return EnumVal("FpCategory", "Zero", 2)
+            if it.decide(z3.fpIsSubnormal(t)):
+                return EnumVal("FpCategory", "Subnormal", 3)
+            return EnumVal("FpCategory", "Normal", 4)
+        if name == "clamp":
+            lo, hi = a[1], a[2]
+            if lo.conc is not None and hi.conc is not None and not (lo.conc <= hi.conc):
+                raise Panic("min > max, or either was NaN")
+            x = a[0]
+            # std: let mut x = self; if x < min { x = min } if x > max { x = max } x   (NaN stays NaN)
+            if it.decide(dom.cmp("Lt", x, lo)):
+                x = lo
+            if it.decide(dom.cmp("Gt", x, hi)):
+                x = hi
+            return x
+        if name in ("is_sign_negative", "is_sign_positive"):
+            x = a[0]
+            if x.conc is not None:
+                import math as _m
+                neg = _m.copysign(1.0, x.conc) < 0
+            elif z3.is_fp(x.t):
+                neg = z3.fpIsNegative(x.t)
+                return neg if name == "is_sign_negative" else z3.Not(neg)
+            else:
+                raise Unsupported("sign bit of a real-embedded value")
+            return neg if name == "is_sign_negative" else (not neg)
         if name == "is_nan":
             if a[0].conc is not None:
                 return a[0].conc != a[0].conc
             if z3.is_fp(a[0].t):
                 return z3.fpIsNaN(a[0].t)
             return False  # real-arithmetic interpretation: no NaN
+        if name in ("is_normal", "is_finite", "is_infinite", "is_subnormal") and a[0].conc is not None:
+            import math as _m
+            x = a[0].conc
+            if name == "is_finite":
+                return not (_m.isnan(x) or _m.isinf(x))
+            if name == "is_infinite":
+                return _m.isinf(x)
+            normal = not (_m.isnan(x) or _m.isinf(x)) and abs(x) >= 2.2250738585072014e-308
+            return normal if name == "is_normal" else (x != 0.0 and not _m.isnan(x) and not _m.isinf(x) and not normal)
         if name in ("is_normal", "is_finite", "is_infinite") and a[0].conc is None and z3.is_fp(a[0].t):
             t = a[0].t
             return {"is_normal": z3.fpIsNormal(t), "is_finite": z3.And(z3.Not(z3.fpIsNaN(t)), z3.Not(z3.fpIsInf(t))),
@@ -143,6 +197,40 @@ def try_builtin(it, callee, args):
         return CFV(False, r.fields[0]) if r.ok else CFV(True, ResV(False, r.fields[0]))
     if re.match(r"^<(?:std::result::)?Result<.*> as FromResidual<.*>>::from_residual$", c, re.S) and isinstance(args[0], ResV):
         return ResV(False, args[0].fields[0])
+    if re.match(r"^<(?:std::option::)?Option<.*> as Try>::branch$", c, re.S) and isinstance(args[0], Opt):
+        used("Option ?")
+        o = args[0]
+        return CFV(False, o.fields[0]) if o.some else CFV(True, Opt(None, False))
+    if re.match(r"^<(?:std::option::)?Option<.*> as FromResidual<.*>>::from_residual$", c, re.S):
+        return Opt(None, False)
+    m = re.match(r"^(?:std::result::)?Result::<.*>::(unwrap_or_else|map|map_err|and_then|unwrap_or_default|err|map_or|is_ok_and|or_else|unwrap_err|expect_err)(?:::<.*>)?$", c, re.S)
+    if m and isinstance(args[0], ResV):
+        r = args[0]
+        nm = m.group(1)
+        used("Result::" + nm)
+        if nm == "unwrap_or_else":
+            return r.fields[0] if r.ok else it.call_closure(args[1], [r.fields[0]])
+        if nm == "map":
+            return ResV(True, it.call_closure(args[1], [r.fields[0]])) if r.ok else r
+        if nm == "map_err":
+            return r if r.ok else ResV(False, it.call_closure(args[1], [r.fields[0]]))
+        if nm == "and_then":
+            return it.call_closure(args[1], [r.fields[0]]) if r.ok else r
+        if nm == "or_else":
+            return r if r.ok else it.call_closure(args[1], [r.fields[0]])
+        if nm == "err":
+            return Opt(None, False) if r.ok else Opt(r.fields[0], True)
+        if nm == "map_or":
+            return it.call_closure(args[2], [r.fields[0]]) if r.ok else args[1]
+        if nm == "is_ok_and":
+            return it.decide(it.call_closure(args[1], [r.fields[0]])) if r.ok else False
+        if nm in ("unwrap_err", "expect_err"):
+            if r.ok:
+                raise Panic("called `Result::unwrap_err()` on an `Ok` value")
+            return r.fields[0]
+        if nm == "unwrap_or_default" and not r.ok:
+            raise Unsupported("Result::unwrap_or_default on Err")
+        return r.fields[0]
     m = re.match(r"^(?:std::result::)?Result::<.*>::(unwrap|expect|is_ok|is_err|ok|unwrap_or)$", c, re.S)
     if m and isinstance(args[0], ResV):
         r = args[0]
@@ -250,15 +338,131 @@ def try_builtin(it, callee, args):
             return Opt(EnumVal("Ordering", "Greater", 1), True)
         return Opt(None, False)
     if re.match(r"^(?:core|std)::f64::<impl f64>::total_cmp$", c):
-        # total order of IEEE 754; modelled through <, > and "otherwise Equal", i.e. exact except for the relative order of
-        # -0.0/+0.0 and of NaNs (callers in this crate only sort values already filtered to be normal)
+        # IEEE 754 totalOrder.  Concrete operands: by their bit patterns.  Bit-precise symbolic operands: through the IEEE bit
+        # vectors (sign-magnitude -> two's complement order; z3 has one NaN, so NaN payloads/signs are not distinguished).
+        # Real-embedded operands (no -0.0, no NaN in that kit): <, >, otherwise Equal.
         a, b = deref(args[0]), deref(args[1])
-        used("f64::total_cmp (via <, >)")
+        used("f64::total_cmp")
+        if a.conc is not None and b.conc is not None:
+            import struct as _st
+
+            def key(x):
+                w = _st.unpack("<q", _st.pack("<d", x))[0]
+                return w ^ (((w >> 63) & 0xffffffffffffffff) >> 1) if w < 0 else w
+            ka, kb = key(a.conc), key(b.conc)
+            return EnumVal("Ordering", "Less", -1) if ka < kb else (EnumVal("Ordering", "Greater", 1) if ka > kb else EnumVal("Ordering", "Equal", 0))
+        if z3.is_fp(a.t) and z3.is_fp(b.t):
+            def zkey(t):
+                w = z3.fpToIEEEBV(t)
+                return z3.If(z3.Extract(63, 63, w) == 1, ~w, w | z3.BitVecVal(1 << 63, 64))
+            ka, kb = zkey(a.t), zkey(b.t)
+            if it.decide(z3.ULT(ka, kb)):
+                return EnumVal("Ordering", "Less", -1)
+            if it.decide(z3.UGT(ka, kb)):
+                return EnumVal("Ordering", "Greater", 1)
+            return EnumVal("Ordering", "Equal", 0)
         if it.decide(dom.cmp("Lt", a, b)):
             return EnumVal("Ordering", "Less", -1)
         if it.decide(dom.cmp("Gt", a, b)):
             return EnumVal("Ordering", "Greater", 1)
         return EnumVal("Ordering", "Equal", 0)
+    m = re.match(r"^<&*(?:mut )?f64 as PartialEq(?:<&*(?:mut )?f64>)?>::(eq|ne)$", c)
+    if m:
+        a, b = deref(args[0]), deref(args[1])
+        used("f64 PartialEq")
+        return dom.cmp("Eq" if m.group(1) == "eq" else "Ne", a, b)
+    m = re.match(r"^<&*(?:mut )?(?:\[f64\]|\[f64; \d+\]|(?:std::vec::)?Vec<f64>) as PartialEq(?:<.*>)?>::(eq|ne)$", c, re.S)
+    if m:
+        used("[f64] PartialEq")
+        a, b = as_slice(args[0] if not isinstance(deref(args[0]), (Ref, SliceRef)) else deref(args[0])), \
+            as_slice(args[1] if not isinstance(deref(args[1]), (Ref, SliceRef)) else deref(args[1]))
+        if len(a) != len(b):
+            r = False
+        else:
+            r = all(it.decide(dom.cmp("Eq", deref(elem_ref(a, i)), deref(elem_ref(b, i)))) for i in range(len(a)))
+        return r if m.group(1) == "eq" else (not r)
+    if c == "<T as PartialEq>::eq" and isinstance(deref(args[0]), Num):
+        return dom.cmp("Eq", deref(args[0]), deref(args[1]))
+    m = re.match(r"^(?:std|core)::ops::(Range|RangeInclusive)::<usize>::contains(?:::<.*>)?$", c)
+    if m:
+        r, x = deref(args[0]), deref(args[1])
+        lo, hi = r.fields[0], r.fields[1]
+        used("Range::contains")
+        return (lo <= x < hi) if m.group(1) == "Range" else (lo <= x <= hi)
+    m = re.match(r"^<f64 as From<(u8|u16|u32|i8|i16|i32|f32)>>::from$", c)
+    if m:
+        used("f64::from(" + m.group(1) + ")")
+        x = args[0]
+        if isinstance(x, int) and not isinstance(x, bool):
+            return dom.const(float(x))
+        if isinstance(x, Num):
+            return x
+        raise Unsupported("f64::from of %r" % (x,))
+    # ---- std::mem
+    m = re.match(r"^(?:std|core)::mem::(swap|replace|take)::<(.*)>$", c, re.S)
+    if m:
+        used("mem::" + m.group(1))
+        if m.group(1) == "swap":
+            a, b = args
+            va, vb = read_path(a.cell, a.path), read_path(b.cell, b.path)
+            write_path(a.cell, a.path, vb)
+            write_path(b.cell, b.path, va)
+            return UNIT
+        r = args[0]
+        old_v = read_path(r.cell, r.path)
+        if m.group(1) == "replace":
+            write_path(r.cell, r.path, args[1])
+            return old_v
+        ty = m.group(2).strip()
+        if ty == "f64":
+            dflt = dom.const(0.0)
+        elif re.match(r"^(?:std::vec::)?Vec<", ty):
+            dflt = VecV([])
+        elif re.match(r"^(?:std::option::)?Option<", ty):
+            dflt = Opt(None, False)
+        elif ty in ("usize", "u64", "i64", "u32", "i32"):
+            dflt = 0
+        elif ty == "bool":
+            dflt = False
+        elif re.match(r"^&(?:'\w+ )?(?:mut )?\[.*\]$", ty):
+            from interp import Cell as _Cell
+            dflt = SliceRef(_Cell(Array([])), (), 0, 0)
+        else:
+            raise Unsupported("mem::take of " + ty)
+        write_path(r.cell, r.path, dflt)
+        return old_v
+    # ---- vec! and friends
+    m = re.match(r"^(?:std::boxed::)?Box::<\[(.*); (\d+)\]>::new_uninit$", c, re.S)
+    if m:
+        used("vec![..] (Box::new_uninit + box_assume_init_into_vec_unsafe)")
+        from interp import Cell as _Cell
+        cell = _Cell(Struct("MaybeUninit", [UNIT, Struct("ManuallyDrop", [Struct("MaybeDangling", [None])])]))
+        return Struct("Box", [Struct("Unique", [Struct("NonNull", [Ref(cell)])])])
+    if re.match(r"^std::boxed::box_assume_init_into_vec_unsafe::<.*>$", c, re.S):
+        r = args[0].fields[0].fields[0].fields[0]
+        arr = read_path(r.cell, r.path).fields[1].fields[0].fields[0]
+        if not isinstance(arr, Array):
+            raise Unsupported("vec![..]: uninitialised box")
+        return VecV(list(arr.fields))
+    if re.match(r"^(?:std|alloc)::vec::from_elem::<.*>$", c, re.S):
+        used("vec![x; n]")
+        if not isinstance(args[1], int):
+            raise Unsupported("vec![x; n] with symbolic n")
+        return VecV([clone_value(args[0]) for _ in range(args[1])])
+    m = re.match(r"^(?:std|core)::array::from_fn::<(.*)>$", c, re.S)
+    if m:
+        used("array::from_fn")
+        mm = re.match(r"^[^,]+, (\w+),", m.group(1))
+        n_ = None
+        if mm and mm.group(1).isdigit():
+            n_ = int(mm.group(1))
+        elif mm and getattr(it, "const_env", None) and mm.group(1) in it.const_env[-1]:
+            n_ = it.const_env[-1][mm.group(1)]
+        if n_ is None:
+            raise Unsupported("array::from_fn length")
+        from interp import Cell as _Cell
+        cl = _Cell(args[0])
+        return Array([it.call_closure(cl, [i]) for i in range(n_)])
     m = re.match(r"^<(.*) as (?:std::borrow::|core::borrow::)?(Borrow|AsRef)<(.*)>>::(borrow|as_ref)$", c, re.S)
     if m and len(args) == 1 and isinstance(args[0], Ref):
         used("Borrow::borrow")
@@ -274,6 +478,41 @@ def try_builtin(it, callee, args):
         r = (a.disc == b.disc)
         return r if m.group(1) == "eq" else (not r)
     # ---- usize helpers
+    m = re.match(r"^core::num::<impl usize>::(pow|is_power_of_two|abs_diff|div_ceil|next_power_of_two|checked_add|checked_mul|checked_div|wrapping_add|rem_euclid|div_euclid)$", c)
+    if m and all(isinstance(x, int) for x in args):
+        used("usize::" + m.group(1))
+        nm = m.group(1)
+        a = args[0]
+        bb = args[1] if len(args) > 1 else None
+        if nm == "pow":
+            if a ** bb >= 2 ** 64:
+                raise Panic("attempt to multiply with overflow")
+            return a ** bb
+        if nm == "is_power_of_two":
+            return a > 0 and (a & (a - 1)) == 0
+        if nm == "abs_diff":
+            return abs(a - bb)
+        if nm == "div_ceil":
+            if bb == 0:
+                raise Panic("attempt to divide by zero")
+            return -(-a // bb)
+        if nm == "next_power_of_two":
+            k = 1
+            while k < a:
+                k *= 2
+            return k
+        if nm == "checked_add":
+            return Opt(a + bb, True) if a + bb < 2 ** 64 else Opt(None, False)
+        if nm == "checked_mul":
+            return Opt(a * bb, True) if a * bb < 2 ** 64 else Opt(None, False)
+        if nm == "checked_div":
+            return Opt(a // bb, True) if bb != 0 else Opt(None, False)
+        if nm == "wrapping_add":
+            return (a + bb) % 2 ** 64
+        if nm in ("rem_euclid", "div_euclid"):
+            if bb == 0:
+                raise Panic("attempt to divide by zero")
+            return a % bb if nm == "rem_euclid" else a // bb
     m = re.match(r"^core::num::<impl usize>::(saturating_sub|saturating_add|min|max|checked_sub|wrapping_sub)$", c)
     if m and all(isinstance(x, int) for x in args):
         used("usize::" + m.group(1))
@@ -281,13 +520,15 @@ def try_builtin(it, callee, args):
         if m.group(1) == "saturating_sub":
             return max(a - b, 0)
         if m.group(1) == "saturating_add":
-            return a + b
+            return min(a + b, 2 ** 64 - 1)
         if m.group(1) == "min":
             return min(a, b)
         if m.group(1) == "max":
             return max(a, b)
         if m.group(1) == "checked_sub":
             return Opt(a - b, True) if a >= b else Opt(None, False)
+        if m.group(1) == "wrapping_sub":
+            return (a - b) % 2 ** 64
     m = re.match(r"^<usize as Ord>::(min|max)$", c) or re.match(r"^(?:core|std)::cmp::(min|max)::<usize>$", c)
     if m and all(isinstance(x, int) for x in args):
         used("usize Ord::" + m.group(1))
@@ -317,6 +558,14 @@ def try_builtin(it, callee, args):
             return len(sl) == 0
         if name in ("get", "get_mut"):
             i = args[1]
+            if isinstance(i, Struct) and i.name in ("Range", "RangeTo", "RangeFrom", "RangeInclusive", "RangeFull", "RangeToInclusive"):
+                n_ = len(sl)
+                lo = i.fields[0] if i.name in ("Range", "RangeFrom", "RangeInclusive") else 0
+                hi = {"Range": lambda: i.fields[1], "RangeTo": lambda: i.fields[0], "RangeFrom": lambda: n_, "RangeFull": lambda: n_,
+                      "RangeInclusive": lambda: i.fields[1] + 1, "RangeToInclusive": lambda: i.fields[0] + 1}[i.name]()
+                if lo > hi or hi > n_:
+                    return Opt(None, False)
+                return Opt(SliceRef(sl.cell, sl.path, sl.start + lo, sl.start + hi), True)
             if not isinstance(i, int):
                 raise Unsupported("slice get with non-usize index")
             return Opt(elem_ref(sl, i), True) if i < len(sl) else Opt(None, False)
@@ -351,6 +600,86 @@ def try_builtin(it, callee, args):
             li = ListIter([sub(n - (i + 1) * k, n - i * k) for i in range(full)])
             li.remainder = sub(0, n - full * k)
             return li
+        if name in ("first_mut", "last_mut"):
+            i = 0 if name == "first_mut" else len(sl) - 1
+            return Opt(elem_ref(sl, i), True) if len(sl) else Opt(None, False)
+        if name == "reverse":
+            vals = [read_path(sl.cell, sl.path + (sl.start + i,)) for i in range(len(sl))]
+            for i, v_ in enumerate(reversed(vals)):
+                write_path(sl.cell, sl.path + (sl.start + i,), v_)
+            return UNIT
+        if name == "swap":
+            i, j = args[1], args[2]
+            if i >= len(sl) or j >= len(sl):
+                raise Panic("index out of bounds")
+            vi, vj = read_path(sl.cell, sl.path + (sl.start + i,)), read_path(sl.cell, sl.path + (sl.start + j,))
+            write_path(sl.cell, sl.path + (sl.start + i,), vj)
+            write_path(sl.cell, sl.path + (sl.start + j,), vi)
+            return UNIT
+        if name == "fill":
+            for i in range(len(sl)):
+                write_path(sl.cell, sl.path + (sl.start + i,), clone_value(args[1]))
+            return UNIT
+        if name in ("copy_from_slice", "clone_from_slice"):
+            src = as_slice(args[1])
+            if len(src) != len(sl):
+                raise Panic("source slice length does not match destination slice length")
+            vals = [clone_value(read_path(src.cell, src.path + (src.start + i,))) for i in range(len(src))]
+            for i, v_ in enumerate(vals):
+                write_path(sl.cell, sl.path + (sl.start + i,), v_)
+            return UNIT
+        if name == "split_at_mut":
+            k = args[1]
+            if k > len(sl):
+                raise Panic("mid > len in split_at_mut")
+            return Tuple([SliceRef(sl.cell, sl.path, sl.start, sl.start + k), SliceRef(sl.cell, sl.path, sl.start + k, sl.end)])
+        if name in ("split_first_mut", "split_last_mut"):
+            if not len(sl):
+                return Opt(None, False)
+            if name == "split_first_mut":
+                return Opt(Tuple([elem_ref(sl, 0), SliceRef(sl.cell, sl.path, sl.start + 1, sl.end)]), True)
+            return Opt(Tuple([elem_ref(sl, len(sl) - 1), SliceRef(sl.cell, sl.path, sl.start, sl.end - 1)]), True)
+        if name in ("contains", "starts_with", "ends_with"):
+            def eq_(x, y):
+                x, y = deref(x), deref(y)
+                if isinstance(x, Num):
+                    return it.decide(dom.cmp("Eq", x, y))
+                if isinstance(x, int):
+                    return x == y
+                raise Unsupported("slice %s over %r" % (name, x))
+            if name == "contains":
+                return any(eq_(elem_ref(sl, i), args[1]) for i in range(len(sl)))
+            oth = as_slice(args[1])
+            if len(oth) > len(sl):
+                return False
+            off = 0 if name == "starts_with" else len(sl) - len(oth)
+            return all(eq_(elem_ref(sl, off + i), elem_ref(oth, i)) for i in range(len(oth)))
+        if name == "binary_search_by":
+            # std's loop (size halves; `base = if cmp == Greater { base } else { mid }`), then the final comparison
+            from interp import Cell as _Cell
+            cl = _Cell(args[1])
+            size, base = len(sl), 0
+            if size == 0:
+                return ResV(False, 0)
+            while size > 1:
+                half = size // 2
+                mid = base + half
+                o = it.call_closure(cl, [elem_ref(sl, mid)])
+                base = base if o.disc > 0 else mid
+                size -= half
+            o = it.call_closure(cl, [elem_ref(sl, base)])
+            if o.disc == 0:
+                return ResV(True, base)
+            return ResV(False, base + (1 if o.disc < 0 else 0))
+        if name == "concat":
+            out = []
+            for i in range(len(sl)):
+                inner = as_slice(read_path(sl.cell, sl.path + (sl.start + i,)))
+                out += [clone_value(read_path(inner.cell, inner.path + (inner.start + j,))) for j in range(len(inner))]
+            return VecV(out)
+        if name == "repeat":
+            vals = [read_path(sl.cell, sl.path + (sl.start + i,)) for i in range(len(sl))]
+            return VecV([clone_value(v_) for _ in range(args[1]) for v_ in vals])
         if name in ("to_vec",):
             return VecV([clone_value(read_path(sl.cell, sl.path + (sl.start + i,))) for i in range(len(sl))])
         if name == "split_at_checked":
@@ -402,6 +731,14 @@ def try_builtin(it, callee, args):
             if s > e or e > len(sl):
                 raise Panic("slice range out of bounds")
             return SliceRef(sl.cell, sl.path, sl.start + s, sl.start + e)
+        if isinstance(idx, Struct) and idx.name == "RangeFull":
+            return sl
+        if isinstance(idx, Struct) and idx.name in ("RangeInclusive", "RangeToInclusive"):
+            s = idx.fields[0] if idx.name == "RangeInclusive" else 0
+            e = (idx.fields[1] if idx.name == "RangeInclusive" else idx.fields[0]) + 1
+            if s > e or e > len(sl):
+                raise Panic("slice range out of bounds")
+            return SliceRef(sl.cell, sl.path, sl.start + s, sl.start + e)
         raise Unsupported("slice index by %r" % (idx,))
     m = re.match(r"^(?:(?:std|core)::slice::)?(?:R?ChunksExact(?:Mut)?)::<.*>::(?:remainder|into_remainder)$", c, re.S)
     if m:
@@ -430,11 +767,12 @@ def try_builtin(it, callee, args):
         r = args[0]
         v = read_path(r.cell, r.path)
         itr = into_iter(args[1])
+        by_ref = m.group(2).strip().startswith("&")
         while True:
             x = itr.next(it)
             if x is None:
                 break
-            v.fields.append(x)
+            v.fields.append(clone_value(deref(x)) if by_ref else x)
         return UNIT
     m = re.match(r"^(?:std::vec::)?Vec::<(.*)>::(\w+)(?:::<.*>)?$", c, re.S)
     if m:
@@ -466,6 +804,8 @@ def try_builtin(it, callee, args):
             return len(v.fields)
         if name == "is_empty":
             return len(v.fields) == 0
+        if name in ("as_slice", "as_mut_slice"):
+            return as_slice(r)
         if name in ("dedup_by", "dedup_by_key", "dedup", "retain", "retain_mut"):
             from interp import Cell as _Cell
             if name in ("retain", "retain_mut"):
@@ -498,6 +838,48 @@ def try_builtin(it, callee, args):
         if name == "clear":
             del v.fields[:]
             return UNIT
+        if name == "drain":
+            rg = deref(args[1])
+            n_ = len(v.fields)
+            if isinstance(rg, Struct) and rg.name in ("Range", "RangeTo", "RangeFrom", "RangeFull", "RangeInclusive", "RangeToInclusive"):
+                lo = rg.fields[0] if rg.name in ("Range", "RangeFrom", "RangeInclusive") else 0
+                hi = {"Range": lambda: rg.fields[1], "RangeTo": lambda: rg.fields[0], "RangeFrom": lambda: n_, "RangeFull": lambda: n_,
+                      "RangeInclusive": lambda: rg.fields[1] + 1, "RangeToInclusive": lambda: rg.fields[0] + 1}[rg.name]()
+            else:
+                raise Unsupported("Vec::drain range %r" % (rg,))
+            if lo > hi or hi > n_:
+                raise Panic("drain range out of bounds")
+            out = v.fields[lo:hi]
+            del v.fields[lo:hi]
+            return VecIntoIter(out)
+        if name == "split_off":
+            k = args[1]
+            if k > len(v.fields):
+                raise Panic("`at` split index out of bounds")
+            tail = v.fields[k:]
+            del v.fields[k:]
+            return VecV(tail)
+        if name == "append":
+            o2 = args[1]
+            ov = read_path(o2.cell, o2.path)
+            v.fields.extend(ov.fields)
+            del ov.fields[:]
+            return UNIT
+        if name == "swap_remove":
+            k = args[1]
+            if k >= len(v.fields):
+                raise Panic("swap_remove index out of bounds")
+            x = v.fields[k]
+            v.fields[k] = v.fields[-1]
+            v.fields.pop()
+            return x
+        if name == "resize":
+            n_ = args[1]
+            if n_ <= len(v.fields):
+                del v.fields[n_:]
+            else:
+                v.fields.extend(clone_value(args[2]) for _ in range(n_ - len(v.fields)))
+            return UNIT
         if name == "insert":
             if args[1] > len(v.fields):
                 raise Panic("insertion index out of bounds")
@@ -516,6 +898,8 @@ def try_builtin(it, callee, args):
     if m:
         name = m.group(2)
         o = args[0]
+        if isinstance(o, Ref) and name not in ("as_ref", "as_mut", "take", "replace", "get_or_insert", "get_or_insert_with", "insert"):
+            o = read_path(o.cell, o.path)
         used("Option::" + name)
         if name in ("unwrap", "expect"):
             if not o.some:
@@ -537,15 +921,75 @@ def try_builtin(it, callee, args):
             return it.call_closure(args[1], [o.fields[0]]) if o.some else Opt(None, False)
         if name == "unwrap_or_else":
             return o.fields[0] if o.some else it.call_closure(args[1], [])
-        if name == "then_some":
-            pass
+        if name in ("copied", "cloned"):
+            return Opt(clone_value(deref(o.fields[0])), True) if o.some else Opt(None, False)
+        if name == "filter":
+            if not o.some:
+                return Opt(None, False)
+            from interp import Cell as _Cell
+            return o if it.decide(it.call_closure(args[1], [Ref(_Cell(o.fields[0]))])) else Opt(None, False)
+        if name == "or":
+            return o if o.some else args[1]
+        if name == "or_else":
+            return o if o.some else it.call_closure(args[1], [])
+        if name == "xor":
+            o2 = args[1]
+            if o.some and not o2.some:
+                return o
+            if o2.some and not o.some:
+                return o2
+            return Opt(None, False)
+        if name == "and":
+            return args[1] if o.some else Opt(None, False)
+        if name == "zip":
+            o2 = args[1]
+            return Opt(Tuple([o.fields[0], o2.fields[0]]), True) if (o.some and o2.some) else Opt(None, False)
+        if name == "ok_or":
+            return ResV(True, o.fields[0]) if o.some else ResV(False, args[1])
+        if name == "ok_or_else":
+            return ResV(True, o.fields[0]) if o.some else ResV(False, it.call_closure(args[1], []))
+        if name == "is_some_and":
+            return it.decide(it.call_closure(args[1], [o.fields[0]])) if o.some else False
+        if name == "is_none_or":
+            return it.decide(it.call_closure(args[1], [o.fields[0]])) if o.some else True
+        if name == "map_or_else":
+            return it.call_closure(args[2], [o.fields[0]]) if o.some else it.call_closure(args[1], [])
+        if name == "inspect":
+            if o.some:
+                from interp import Cell as _Cell
+                it.call_closure(args[1], [Ref(_Cell(o.fields[0]))])
+            return o
+        if name == "unwrap_or_default":
+            if o.some:
+                return o.fields[0]
+            ty = m.group(1).strip()
+            if ty == "f64":
+                return dom.const(0.0)
+            if ty in ("usize", "u64", "i64", "u32", "i32"):
+                return 0
+            raise Unsupported("Option::unwrap_or_default of " + ty)
+        if name in ("as_ref", "as_mut") and isinstance(o, Ref):
+            ov = read_path(o.cell, o.path)
+            return Opt(Ref(o.cell, o.path + (0,)), True) if ov.some else Opt(None, False)
+        if name in ("take", "replace") and isinstance(o, Ref):
+            ov = read_path(o.cell, o.path)
+            write_path(o.cell, o.path, Opt(None, False) if name == "take" else Opt(args[1], True))
+            return ov
+        if name == "unwrap_unchecked":
+            return o.fields[0]
         raise Unsupported("Option method " + name)
     # ---- iterators
     m = re.match(r"^<(.*) as (Iterator|DoubleEndedIterator|ExactSizeIterator|IntoIterator|Clone)>::(\w+)(?:::<.*>)?$", c, re.S)
     def _rangeish(x):
         return isinstance(x, Struct) and x.name in ("Range", "RangeInclusive")
+    def _crate_iterator(x):
+        # a value of a crate type with its own `Iterator::next`: adaptors and consumers run over CrateIter
+        if not isinstance(x, Struct) or m.group(3) in ("next", "size_hint", "clone"):
+            return False
+        return any(len(f_.params) == 1 and re.search(r"\b%s\b" % re.escape(x.name), f_.params[0][1]) for f_ in it.p.by_method.get("next", []))
     if m and (isinstance(deref(args[0]) if args else None, (IterBase, VecV, SliceRef, Array)) or
-              (args and isinstance(args[0], (SliceRef,))) or (args and _rangeish(deref(args[0])))):
+              (args and isinstance(args[0], (SliceRef,))) or (args and _rangeish(deref(args[0]))) or
+              (args and _crate_iterator(deref(args[0])))):
         name = m.group(3)
         used("Iterator::" + name)
         a0 = args[0]
@@ -581,6 +1025,118 @@ def try_builtin(it, callee, args):
         if name in ("filter", "filter_map", "take_while", "skip_while", "inspect", "map_while"):
             from interp import FilterIter
             return FilterIter(itr, args[1], name)
+        if name == "peekable":
+            from interp import PeekIter
+            return PeekIter(itr)
+        if name in ("flat_map", "flatten"):
+            from interp import FlatIter
+            return FlatIter(itr, args[1] if name == "flat_map" else None)
+        if name == "cycle":
+            from interp import CycleIter
+            return CycleIter(itr)
+        if name in ("sum", "product"):
+            acc = None
+            ty = re.search(r"::(?:sum|product)::<(\w+)>", c)
+            is_int = ty is not None and ty.group(1) in ("usize", "u64", "i64", "u32", "i32")
+            # <f64 as Sum>::sum folds from -0.0 (so that an empty sum of floats is -0.0), Product from 1.0
+            acc = (0 if name == "sum" else 1) if is_int else dom.const(-0.0 if name == "sum" else 1.0)
+            while True:
+                x = itr.next(it)
+                if x is None:
+                    break
+                x = deref(x)
+                if is_int:
+                    acc = acc + x if name == "sum" else acc * x
+                else:
+                    acc = dom.add(acc, x) if name == "sum" else dom.mul(acc, x)
+            return acc
+        if name in ("min_by", "max_by"):
+            from interp import Cell as _Cell
+            cl = _Cell(args[1])
+            best = None
+            while True:
+                x = itr.next(it)
+                if x is None:
+                    break
+                if best is None:
+                    best = x
+                    continue
+                o = it.call_closure(cl, [Ref(_Cell(best)), Ref(_Cell(x))])  # compare(best, x)
+                if not isinstance(o, EnumVal):
+                    raise Unsupported("min_by/max_by comparator returned %r" % (o,))
+                # std: max_by keeps the LAST of equal maxima, min_by the FIRST of equal minima
+                if name == "max_by" and o.disc <= 0:
+                    best = x
+                if name == "min_by" and o.disc > 0:
+                    best = x
+            return Opt(best, True) if best is not None else Opt(None, False)
+        if name == "reduce":
+            from interp import Cell as _Cell
+            cl = _Cell(args[1])
+            acc = itr.next(it)
+            if acc is None:
+                return Opt(None, False)
+            while True:
+                x = itr.next(it)
+                if x is None:
+                    break
+                acc = it.call_closure(cl, [acc, x])
+            return Opt(acc, True)
+        if name == "try_fold":
+            from interp import Cell as _Cell
+            cl = _Cell(args[2])
+            acc = args[1]
+            kind = None
+            while True:
+                x = itr.next(it)
+                if x is None:
+                    break
+                r = it.call_closure(cl, [acc, x])
+                if isinstance(r, Opt):
+                    kind = "opt"
+                    if not r.some:
+                        return r
+                    acc = r.fields[0]
+                elif isinstance(r, ResV):
+                    kind = "res"
+                    if not r.ok:
+                        return r
+                    acc = r.fields[0]
+                else:
+                    raise Unsupported("try_fold closure returned %r" % (r,))
+            if kind is None:
+                kind = "res" if re.search(r"Result<", c.split("try_fold", 1)[1]) else "opt"
+            return Opt(acc, True) if kind == "opt" else ResV(True, acc)
+        if name == "unzip":
+            la, lb = [], []
+            while True:
+                x = itr.next(it)
+                if x is None:
+                    break
+                la.append(x.fields[0])
+                lb.append(x.fields[1])
+            return Tuple([VecV(la), VecV(lb)])
+        if name == "rposition":
+            from interp import Cell as _Cell
+            cl = _Cell(args[1])
+            items = []
+            while True:
+                x = itr.next(it)
+                if x is None:
+                    break
+                items.append(x)
+            for i in range(len(items) - 1, -1, -1):
+                if it.decide(it.call_closure(cl, [items[i]])):
+                    return Opt(i, True)
+            return Opt(None, False)
+        if name == "eq":
+            other = into_iter(args[1])
+            while True:
+                x, y = itr.next(it), other.next(it)
+                if x is None or y is None:
+                    return x is None and y is None
+                if not it.decide(dom.cmp("Eq", deref(x), deref(y))):
+                    return False
         if name == "step_by":
             from interp import StepByIter
             if not isinstance(args[1], int) or args[1] <= 0:
@@ -675,6 +1231,29 @@ def try_builtin(it, callee, args):
                 i += 1
             return {"position": Opt(None, False), "find_map": Opt(None, False), "find": Opt(None, False), "any": False, "all": True}[name]
         raise Unsupported("iterator method " + name)
+    m = re.match(r"^(?:std::iter::|core::iter::)?Peekable::<.*>::(peek|peek_mut|next_if)(?:::<.*>)?$", c, re.S)
+    if m:
+        from interp import PeekIter, Cell as _Cell
+        pk = deref(args[0])
+        if not isinstance(pk, PeekIter):
+            raise Unsupported("peek on %r" % (pk,))
+        used("Peekable::" + m.group(1))
+        x = pk.peek(it)
+        if m.group(1) in ("peek", "peek_mut"):
+            return Opt(Ref(_Cell(x)), True) if x is not None else Opt(None, False)
+        if x is not None and it.decide(it.call_closure(args[1], [Ref(_Cell(x))])):
+            return Opt(pk.next(it), True)
+        return Opt(None, False)
+    m = re.match(r"^(?:std::iter::|core::iter::)?(from_fn|successors|repeat|repeat_with)::<.*>$", c, re.S)
+    if m:
+        from interp import FnIter
+        used("iter::" + m.group(1))
+        k = m.group(1)
+        if k == "repeat":
+            return FnIter("repeat", state=args[0])
+        if k in ("from_fn", "repeat_with"):
+            return FnIter(k, closure=args[0])
+        return FnIter("successors", closure=args[1], state=args[0])
     if re.match(r"^(?:std::iter::|core::iter::)?once::<.*>$", c):
         used("iter::once")
         return OnceIter(args[0])
